@@ -124,7 +124,7 @@ def Spec.slot (t : Ty) : MKind → Nat
   | .optional => max Spec.flagSize (Spec.alignTy t) + Spec.sizeTy t
   | .fixed c => c * Spec.sizeTy t
   | .limited _ c => c * Spec.sizeTy t
-  | .dyn _ => 0
+  | .dyn _ _ => 0
   | .greedy => 0
 
 theorem Spec.endMs_cons (n : String) (t : Ty) (k : MKind) (r : List Member) (off : Nat) (ad : Bool) :
@@ -149,7 +149,7 @@ theorem fieldSt_size (s : St) (k : MKind) :
       | .optional => max flagSize s.align + s.size
       | .fixed c => c * s.size
       | .limited _ c => c * s.size
-      | .dyn _ => 0
+      | .dyn _ _ => 0
       | .greedy => 0 := by
   cases k <;> rfl
 
